@@ -109,10 +109,42 @@ def check(ctx):
                 if targs and is_rng_type({"k": "refmut", "of": targs[0]}, f):
                     reseed.append((f, kind, path + " on an rng", span))
     allowed = []
+    # a private helper that exists only to serve the stepping functions (every call of it is in serial_next / par_next or
+    # in another such helper) is part of them: the live generator may be created there
+    from .graph import CallGraph
+    callers = {}
+    for g in lib:
+        for kind2, path2, full2, rdef2, rlocal2, bi2, span2, t2 in fn_uses(g):
+            for tgt in (rdef2, path2):
+                if tgt in F.fns:
+                    callers.setdefault(tgt, set()).add(g.root or g.id)
+    serving = set(GEN_FNS)
+    for _ in range(4):
+        for fid, cs in callers.items():
+            g = F.fns.get(fid)
+            if fid not in serving and g is not None and not g.pub and cs and cs <= serving and fid.startswith("ec_core::generation::"):
+                serving.add(fid)
+    served = {}
     for f, kind, path, span in amb:
         root = f.root or f.id
         if root in GEN_FNS:
             allowed.append((root, kind, path))
+        elif root in serving:
+            # attribute the use to the stepping function(s) it serves
+            tops = set()
+            work = [root]
+            seen_ = set()
+            while work:
+                x = work.pop()
+                if x in seen_:
+                    continue
+                seen_.add(x)
+                if x in GEN_FNS:
+                    tops.add(x)
+                else:
+                    work.extend(callers.get(x, ()))
+            for tp in sorted(tops):
+                allowed.append((tp, kind, path))
         else:
             ctx.bad("R16.1", "ambient/%s/%s" % (f.id, path.split("::")[-1]), "%s of %s outside Generation::*_next: in %s" % ("call" if kind == "call" else "function value", path, f.id), (span or {}).get("at"))
     roots = sorted({a[0] for a in allowed})
